@@ -8,7 +8,7 @@ CONSTANTS
   PreFix = FALSE
   CoarseCancel = TRUE
   Modes = {"none", "nowait", "wait"}
-  Modes2 = {"none"}
+  Modes2 = {"none", "nowait", "wait"}
   NeverExits = {}
 VIEW TView
 INVARIANTS Accept
